@@ -401,6 +401,61 @@ pub fn cases(seed: u64, thorough: bool, faults: &[Value]) -> Vec<LCase> {
             }
         }
     }
+    // SAUCE text fields hold arbitrary CP437 bytes: every field x content classes (known / unknown font names, last character a
+    // digit / letter / blank, one byte >= 0x80 at every distance 0..6 from the end and at the start, only high bytes, NUL inside)
+    // x the data types whose loaders use the field
+    {
+        let fields: [(&str, usize, usize); 4] = [("title", 7, 35), ("author", 42, 20), ("group", 62, 20), ("tinfos", 106, 22)];
+        let stems: [&[u8]; 8] = [b"IBM VGA", b"IBM VGA50", b"IBM VGA 437", b"IBM EGA43", b"Amiga Topaz 1+", b"Some Font 12", b"Name", b"C64 PETSCII unshifted"];
+        for (fname, off, len) in fields {
+            let mut values: Vec<(String, Vec<u8>)> = vec![];
+            for stem in stems {
+                let st: Vec<u8> = stem.iter().copied().take(len).collect();
+                values.push((format!("{}", String::from_utf8_lossy(&st)), st.clone()));
+                for hi in [0x80u8, 0xB0, 0xFF] {
+                    for d in 0..7usize {
+                        if d < st.len() {
+                            let mut v = st.clone();
+                            let k = v.len() - 1 - d;
+                            v[k] = hi;
+                            values.push((format!("{}:hi{hi:02x}@-{d}", String::from_utf8_lossy(&st)), v));
+                        }
+                    }
+                    let mut v = st.clone();
+                    v[0] = hi;
+                    values.push((format!("{}:hi{hi:02x}@0", String::from_utf8_lossy(&st)), v));
+                    // a high byte inserted before a trailing digit group
+                    if let Some(p) = st.iter().rposition(|c| !c.is_ascii_digit()) {
+                        if p + 1 < st.len() && st.len() < len {
+                            let mut v = st.clone();
+                            v.insert(p + 1, hi);
+                            values.push((format!("{}:hi{hi:02x}+digits", String::from_utf8_lossy(&st)), v));
+                        }
+                    }
+                }
+            }
+            values.push(("all-high".into(), vec![0xDB; len]));
+            values.push(("nul-inside".into(), { let mut v = b"AB".to_vec(); v.push(0); v.extend(b"CD9"); v }));
+            values.push(("full-digits".into(), vec![b'7'; len]));
+            for (vn, v) in values {
+                for (dt, ft) in [(1u8, 1u8), (1, 0), (5, 0), (6, 0)] {
+                    let mut rr = rec.clone();
+                    rr[94] = dt;
+                    rr[95] = ft;
+                    rr[96] = 80; rr[98] = 2;
+                    for i in 0..len { rr[off + i] = if fname == "tinfos" { 0 } else { b' ' }; }
+                    rr[off..off + v.len().min(len)].copy_from_slice(&v[..v.len().min(len)]);
+                    let mut b = vec![b'x'; 40];
+                    b.push(0x1A);
+                    b.extend(&rr);
+                    let exts: &[&str] = if fname == "tinfos" { &["sauce", "ans", "asc", "bin", "xb", "adf", "tnd", "pcb", "avt", "idf", "icy"] } else { &["sauce", "ans", "bin"] };
+                    for e in exts {
+                        out.push(LCase { ext: e.to_string(), seed: "sauce-text".into(), mutation: format!("{fname}={vn},dt={dt}/{ft}"), bytes: b.clone() });
+                    }
+                }
+            }
+        }
+    }
     // bad version / date fields
     for (o, v) in [(5usize, b'9'), (82, b'x'), (86, b'9'), (88, b'9')] {
         let mut rr = rec.clone();
@@ -447,6 +502,18 @@ pub fn c02(a: &Args) {
         return;
     }
     let all = cases(seed, thorough, &faults);
+    if a.has("dump-streams") {
+        // the structured control-string families (font DCS payload classes followed by a later control string) as TERMINAL cases:
+        // the same bytes reach the emulations over the wire (C01) and through the text loaders (C02)
+        let mut o = Out::create(&a.str("dump-streams", ""));
+        for (k, c) in all.iter().filter(|c| c.seed == "font-dcs").enumerate() {
+            let emu = match c.ext.as_str() { "avt" => "avatar", "pcb" => "pcboard", _ => "ansi" };
+            let quiet = c.bytes.len().saturating_sub(160);
+            o.ev(&json!({"id": format!("fontdcs-{k}-{}", c.mutation), "emu": emu, "music": 0, "w": 80, "h": 25, "alloc": k % 2, "bs": 0, "proj": "geo", "model": 0,
+                         "quiet": if c.bytes.len() > 400 { quiet } else { 0 }, "bytes": c.bytes}));
+        }
+        return;
+    }
     let mine: Vec<&LCase> = all.iter().enumerate().filter(|(i, _)| i % shards == shard).map(|(_, c)| c).collect();
     if a.has("dump-case") {
         let k = a.usize("dump-case", 0);
